@@ -17,6 +17,15 @@
 // Anything the walker does not understand about locking (a mutex passed around, Lock on another
 // object's mutex field) is ignored, i.e. treated as not holding — the conservative direction.
 //
+// Extensions: (i) a field of pointer/struct type whose struct (same package) owns map fields is followed one
+// level (serverMetrics.info.ProxyStatistics is reported as field "info.ProxyStatistics"); (ii) an access is a
+// WRITE when the field is the base of an index expression on the left of an assignment / inc-dec, the first
+// argument of delete(), or assigned itself; a write is "held" only under the exclusive Lock(), a read under
+// Lock() or RLock(); (iii) lock_order lists the edges "A is held while B is acquired" (directly, through
+// r.<field>.<mutex>.Lock(), or through a call of a method of a type reachable through the owner's fields that
+// locks its receiver's mutex), and lock_rank a topological numbering of the mutexes computed here (untrusted):
+// Proofs/LocksCheck.v verifies that every edge goes up in rank, hence no cyclic lock order.
+//
 // Output coq/gen/GenLocks.v:
 //
 //	lock_tables : list (string * string * list string)          (package-qualified type, field, mutex fields)
@@ -53,10 +62,17 @@ var extraShared = map[string][]string{
 	"server.Control":            {"portsUsedNum"},
 }
 
+const (
+	mNone = 0
+	mRead = 1
+	mExcl = 2
+)
+
 type site struct {
 	typ, field, fn string
 	line           int
-	held           bool
+	write          bool
+	mode           int
 	how            string
 }
 
@@ -64,8 +80,10 @@ type typeInfo struct {
 	pkg      string
 	name     string
 	mutexes  []string
-	shared   []string
-	embedded bool // embeds sync.Mutex / sync.RWMutex
+	shared   []string            // "f" or "f.g" (one level through a struct-typed field)
+	nested   map[string][]string // field -> map fields of its struct type
+	embedded bool
+	fieldTyp map[string]string // field -> named struct type of the package it (transitively: ptr, slice, map value) refers to
 }
 
 func isMutexType(e ast.Expr) bool {
@@ -77,11 +95,29 @@ func isMutexType(e ast.Expr) bool {
 	return false
 }
 
+// namedElem: the package-local named type a field type refers to through *, [], map[..], or directly.
+func namedElem(e ast.Expr) string {
+	switch x := e.(type) {
+	case *ast.Ident:
+		return x.Name
+	case *ast.StarExpr:
+		return namedElem(x.X)
+	case *ast.ArrayType:
+		return namedElem(x.Elt)
+	case *ast.MapType:
+		return namedElem(x.Value)
+	}
+	return ""
+}
+
 func main() { tx.Main(tx.Unit{Name: "T4", File: "GenLocks.v", Fn: genLocks}) }
+
+type edge struct{ a, b string }
 
 func genLocks() ([]byte, error) {
 	var tables []typeInfo
 	var sites []site
+	edges := map[edge]bool{}
 	for _, pkg := range lockPackages {
 		dir := filepath.Join(tx.Repo, pkg)
 		if _, err := os.Stat(dir); err != nil {
@@ -96,9 +132,12 @@ func genLocks() ([]byte, error) {
 			return nil, err
 		}
 		for _, p := range pkgs {
-			ts, ss := analysePackage(fset, pkg, p)
+			ts, ss, es := analysePackage(fset, pkg, p)
 			tables = append(tables, ts...)
 			sites = append(sites, ss...)
+			for _, e := range es {
+				edges[e] = true
+			}
 		}
 	}
 	sort.Slice(tables, func(i, j int) bool { return tables[i].pkg+"."+tables[i].name < tables[j].pkg+"."+tables[j].name })
@@ -118,6 +157,9 @@ func genLocks() ([]byte, error) {
 	b.WriteString("Definition lock_tables : list (string * string * list string) := [\n")
 	var rows []string
 	for _, t := range tables {
+		if len(t.shared) == 0 {
+			continue
+		}
 		for _, f := range t.shared {
 			ms := []string{}
 			for _, m := range t.mutexes {
@@ -131,25 +173,108 @@ func genLocks() ([]byte, error) {
 	b.WriteString("Definition lock_sites : list (string * string * string * Z * bool * string) := [\n")
 	rows = rows[:0]
 	for _, s := range sites {
-		rows = append(rows, fmt.Sprintf("  (%s, %s, %s, %d, %v, %s)", tx.CoqString(s.typ), tx.CoqString(s.field), tx.CoqString(s.fn), s.line, s.held, tx.CoqString(s.how)))
+		need := mRead
+		if s.write {
+			need = mExcl
+		}
+		held := s.mode >= need
+		how := s.how
+		if s.write {
+			how += "/w"
+		}
+		rows = append(rows, fmt.Sprintf("  (%s, %s, %s, %d, %v, %s)", tx.CoqString(s.typ), tx.CoqString(s.field), tx.CoqString(s.fn), s.line, held, tx.CoqString(how)))
+	}
+	b.WriteString(strings.Join(rows, ";\n"))
+	b.WriteString("\n].\n\n")
+	// lock order: edges and a topological rank (Kahn); nodes on a cycle keep rank 0 so that the check fails
+	nodes := map[string]bool{}
+	var es []edge
+	for e := range edges {
+		es = append(es, e)
+		nodes[e.a], nodes[e.b] = true, true
+	}
+	sort.Slice(es, func(i, j int) bool { return es[i].a+">"+es[i].b < es[j].a+">"+es[j].b })
+	rank := map[string]int{}
+	indeg := map[string]int{}
+	for _, e := range es {
+		indeg[e.b]++
+	}
+	var ns []string
+	for n := range nodes {
+		ns = append(ns, n)
+	}
+	sort.Strings(ns)
+	done := map[string]bool{}
+	for r := 1; ; r++ {
+		var layer []string
+		for _, n := range ns {
+			if !done[n] && indeg[n] == 0 {
+				layer = append(layer, n)
+			}
+		}
+		if len(layer) == 0 {
+			break
+		}
+		for _, n := range layer {
+			done[n] = true
+			rank[n] = r
+		}
+		for _, e := range es {
+			if done[e.a] && !done[e.b] {
+				for _, n := range layer {
+					if e.a == n {
+						indeg[e.b]--
+					}
+				}
+			}
+		}
+	}
+	b.WriteString("Definition lock_order : list (string * string) := [\n")
+	rows = rows[:0]
+	for _, e := range es {
+		rows = append(rows, fmt.Sprintf("  (%s, %s)", tx.CoqString(e.a), tx.CoqString(e.b)))
+	}
+	b.WriteString(strings.Join(rows, ";\n"))
+	b.WriteString("\n].\n\nDefinition lock_rank : list (string * Z) := [\n")
+	rows = rows[:0]
+	for _, n := range ns {
+		rows = append(rows, fmt.Sprintf("  (%s, %d)", tx.CoqString(n), rank[n]))
 	}
 	b.WriteString(strings.Join(rows, ";\n"))
 	b.WriteString("\n].\n")
 	return b.Bytes(), nil
 }
 
-type analyser struct {
-	fset   *token.FileSet
-	info   *typeInfo
-	recv   string // receiver identifier in the current method
-	fn     string
-	sites  []site
-	calls  map[string][]bool // method name -> held state at each call site r.method(...)
-	unheld map[string]bool   // methods that contain an access with no lock held
+type methodInfo struct {
+	typ   string
+	locks []string // own mutexes the method acquires somewhere in its body (directly)
 }
 
-func analysePackage(fset *token.FileSet, pkgPath string, p *ast.Package) ([]typeInfo, []site) {
+type analyser struct {
+	fset    *token.FileSet
+	pkg     string
+	info    *typeInfo
+	types   map[string]*typeInfo
+	methods map[string][]methodInfo // method name -> definitions in this package
+	recv    string
+	fn      string
+	sites   []site
+	calls   map[string][]int // method name -> lock mode at each call site r.method(...)
+	edges   []edge
+	heldSet []string // qualified mutex names currently held (for lock-order edges)
+	imports map[string]bool
+}
+
+func qual(pkg, typ, mu string) string {
+	if mu == "" {
+		mu = "(embedded)"
+	}
+	return pkg + "." + typ + "." + mu
+}
+
+func analysePackage(fset *token.FileSet, pkgPath string, p *ast.Package) ([]typeInfo, []site, []edge) {
 	types := map[string]*typeInfo{}
+	structs := map[string]*ast.StructType{}
 	for _, f := range p.Files {
 		for _, d := range f.Decls {
 			gd, ok := d.(*ast.GenDecl)
@@ -158,140 +283,275 @@ func analysePackage(fset *token.FileSet, pkgPath string, p *ast.Package) ([]type
 			}
 			for _, s := range gd.Specs {
 				tsp := s.(*ast.TypeSpec)
-				st, ok := tsp.Type.(*ast.StructType)
-				if !ok {
-					continue
-				}
-				ti := &typeInfo{pkg: pkgPath, name: tsp.Name.Name}
-				extra := extraShared[pkgPath+"."+tsp.Name.Name]
-				for _, fl := range st.Fields.List {
-					if isMutexType(fl.Type) {
-						if len(fl.Names) == 0 {
-							ti.embedded = true
-							ti.mutexes = append(ti.mutexes, "")
-						}
-						for _, n := range fl.Names {
-							ti.mutexes = append(ti.mutexes, n.Name)
-						}
-						continue
-					}
-					_, isMap := fl.Type.(*ast.MapType)
-					for _, n := range fl.Names {
-						if isMap {
-							ti.shared = append(ti.shared, n.Name)
-							continue
-						}
-						for _, e := range extra {
-							if e == n.Name {
-								ti.shared = append(ti.shared, n.Name)
-							}
-						}
-					}
-				}
-				if len(ti.shared) > 0 {
-					types[ti.name] = ti
+				if st, ok := tsp.Type.(*ast.StructType); ok {
+					structs[tsp.Name.Name] = st
 				}
 			}
 		}
 	}
+	mapFields := func(st *ast.StructType) []string {
+		var out []string
+		for _, fl := range st.Fields.List {
+			if _, ok := fl.Type.(*ast.MapType); ok {
+				for _, n := range fl.Names {
+					out = append(out, n.Name)
+				}
+			}
+		}
+		return out
+	}
+	for name, st := range structs {
+		ti := &typeInfo{pkg: pkgPath, name: name, nested: map[string][]string{}, fieldTyp: map[string]string{}}
+		extra := extraShared[pkgPath+"."+name]
+		for _, fl := range st.Fields.List {
+			if isMutexType(fl.Type) {
+				if len(fl.Names) == 0 {
+					ti.embedded = true
+					ti.mutexes = append(ti.mutexes, "")
+				}
+				for _, n := range fl.Names {
+					ti.mutexes = append(ti.mutexes, n.Name)
+				}
+				continue
+			}
+			_, isMap := fl.Type.(*ast.MapType)
+			el := namedElem(fl.Type)
+			for _, n := range fl.Names {
+				if el != "" {
+					if _, ok := structs[el]; ok {
+						ti.fieldTyp[n.Name] = el
+					}
+				}
+				if isMap {
+					ti.shared = append(ti.shared, n.Name)
+					continue
+				}
+				for _, e := range extra {
+					if e == n.Name {
+						ti.shared = append(ti.shared, n.Name)
+					}
+				}
+			}
+		}
+		types[name] = ti
+	}
+	// nested map fields through a directly struct-typed (or pointer) field, only for owners of a mutex
+	for name, st := range structs {
+		ti := types[name]
+		if len(ti.mutexes) == 0 {
+			continue
+		}
+		for _, fl := range st.Fields.List {
+			var el string
+			switch x := fl.Type.(type) {
+			case *ast.Ident:
+				el = x.Name
+			case *ast.StarExpr:
+				if id, ok := x.X.(*ast.Ident); ok {
+					el = id.Name
+				}
+			}
+			if inner, ok := structs[el]; ok && len(types[el].mutexes) == 0 {
+				for _, n := range fl.Names {
+					for _, mf := range mapFields(inner) {
+						ti.nested[n.Name] = append(ti.nested[n.Name], mf)
+						ti.shared = append(ti.shared, n.Name+"."+mf)
+					}
+				}
+			}
+		}
+	}
+	// methods and the own mutexes they lock
+	methods := map[string][]methodInfo{}
+	var decls []*ast.FuncDecl
+	importsOf := map[*ast.FuncDecl]map[string]bool{}
+	for _, f := range p.Files {
+		imps := map[string]bool{}
+		for _, im := range f.Imports {
+			path := strings.Trim(im.Path.Value, "\"")
+			name := path[strings.LastIndex(path, "/")+1:]
+			if im.Name != nil {
+				name = im.Name.Name
+			}
+			imps[name] = true
+		}
+		for _, d := range f.Decls {
+			fd, ok := d.(*ast.FuncDecl)
+			if !ok || fd.Recv == nil || fd.Body == nil || len(fd.Recv.List) != 1 {
+				continue
+			}
+			decls = append(decls, fd)
+			importsOf[fd] = imps
+		}
+	}
+	recvType := func(fd *ast.FuncDecl) string {
+		rt := fd.Recv.List[0].Type
+		if se, ok := rt.(*ast.StarExpr); ok {
+			rt = se.X
+		}
+		if id, ok := rt.(*ast.Ident); ok {
+			return id.Name
+		}
+		return ""
+	}
+	for _, fd := range decls {
+		tn := recvType(fd)
+		ti := types[tn]
+		if ti == nil || len(ti.mutexes) == 0 || len(fd.Recv.List[0].Names) != 1 {
+			continue
+		}
+		rv := fd.Recv.List[0].Names[0].Name
+		mi := methodInfo{typ: tn}
+		ast.Inspect(fd.Body, func(n ast.Node) bool {
+			ce, ok := n.(*ast.CallExpr)
+			if !ok {
+				return true
+			}
+			se, ok := ce.Fun.(*ast.SelectorExpr)
+			if !ok || (se.Sel.Name != "Lock" && se.Sel.Name != "RLock") {
+				return true
+			}
+			if x, ok := se.X.(*ast.SelectorExpr); ok {
+				if id, ok := x.X.(*ast.Ident); ok && id.Name == rv {
+					for _, m := range ti.mutexes {
+						if m == x.Sel.Name {
+							mi.locks = append(mi.locks, m)
+						}
+					}
+				}
+			}
+			return true
+		})
+		methods[fd.Name.Name] = append(methods[fd.Name.Name], mi)
+	}
 	var outT []typeInfo
 	var outS []site
+	var outE []edge
 	names := make([]string, 0, len(types))
-	for n := range types {
-		names = append(names, n)
+	for n, ti := range types {
+		if len(ti.shared) > 0 || len(ti.mutexes) > 0 {
+			names = append(names, n)
+		}
 	}
 	sort.Strings(names)
 	for _, n := range names {
 		ti := types[n]
 		outT = append(outT, *ti)
-		if len(ti.mutexes) == 0 {
-			// a table without any mutex of its own: every access is reported unheld
-		}
-		a := &analyser{fset: fset, info: ti, calls: map[string][]bool{}, unheld: map[string]bool{}}
-		var methods []*ast.FuncDecl
-		for _, f := range p.Files {
-			for _, d := range f.Decls {
-				fd, ok := d.(*ast.FuncDecl)
-				if !ok || fd.Recv == nil || fd.Body == nil || len(fd.Recv.List) != 1 {
-					continue
-				}
-				rt := fd.Recv.List[0].Type
-				if se, ok := rt.(*ast.StarExpr); ok {
-					rt = se.X
-				}
-				if id, ok := rt.(*ast.Ident); !ok || id.Name != ti.name {
-					continue
-				}
-				methods = append(methods, fd)
+		a := &analyser{fset: fset, pkg: pkgPath, info: ti, types: types, methods: methods, calls: map[string][]int{}}
+		var ms []*ast.FuncDecl
+		for _, fd := range decls {
+			if recvType(fd) == ti.name {
+				ms = append(ms, fd)
 			}
 		}
-		sort.Slice(methods, func(i, j int) bool { return methods[i].Name.Name < methods[j].Name.Name })
-		for _, fd := range methods {
+		sort.Slice(ms, func(i, j int) bool { return ms[i].Name.Name < ms[j].Name.Name })
+		for _, fd := range ms {
 			a.recv = ""
 			if len(fd.Recv.List[0].Names) == 1 {
 				a.recv = fd.Recv.List[0].Names[0].Name
 			}
 			a.fn = fd.Name.Name
-			a.block(fd.Body.List, false)
+			a.heldSet = nil
+			a.imports = importsOf[fd]
+			a.block(fd.Body.List, mNone)
 		}
-		// one level of callee-requires-lock
+		// one level of callee-requires-lock: the weakest mode among the call sites
 		for i := range a.sites {
 			s := &a.sites[i]
-			if s.held {
+			need := mRead
+			if s.write {
+				need = mExcl
+			}
+			if s.mode >= need {
 				continue
 			}
 			cs := a.calls[s.fn]
 			if len(cs) == 0 {
 				continue
 			}
-			all := true
+			min := mExcl
 			for _, h := range cs {
-				all = all && h
+				if h < min {
+					min = h
+				}
 			}
-			if all {
-				s.held, s.how = true, "caller"
+			if min >= need {
+				s.mode, s.how = min, "caller"
 			}
 		}
 		outS = append(outS, a.sites...)
+		outE = append(outE, a.edges...)
 	}
-	return outT, outS
+	return outT, outS, outE
 }
 
-// lockCall classifies r.mu.Lock() style calls: +1 lock, -1 unlock, 0 other.
-func (a *analyser) lockCall(e ast.Expr) int {
+// lockCall classifies lock calls.  Returns (delta, qualified mutex name, mode): delta +1 lock, -1 unlock.
+// own mutex: r.mu.Lock(); embedded: r.Lock(); another object's mutex reached through a field: r.f.mu.Lock().
+func (a *analyser) lockCall(e ast.Expr) (int, string, int, bool) {
 	ce, ok := e.(*ast.CallExpr)
 	if !ok {
-		return 0
+		return 0, "", 0, false
 	}
 	se, ok := ce.Fun.(*ast.SelectorExpr)
 	if !ok {
-		return 0
+		return 0, "", 0, false
 	}
-	kind := 0
+	delta, mode := 0, mExcl
 	switch se.Sel.Name {
-	case "Lock", "RLock":
-		kind = 1
+	case "Lock":
+		delta = 1
+	case "RLock":
+		delta, mode = 1, mRead
 	case "Unlock", "RUnlock":
-		kind = -1
+		delta = -1
 	default:
-		return 0
+		return 0, "", 0, false
 	}
-	// receiver must be r.<mutex> or r (embedded)
 	switch x := se.X.(type) {
 	case *ast.SelectorExpr:
 		if id, ok := x.X.(*ast.Ident); ok && id.Name == a.recv {
 			for _, m := range a.info.mutexes {
 				if m == x.Sel.Name {
-					return kind
+					return delta, qual(a.pkg, a.info.name, m), mode, true
+				}
+			}
+		}
+		// r.f.mu
+		if y, ok := x.X.(*ast.SelectorExpr); ok {
+			if id, ok := y.X.(*ast.Ident); ok && id.Name == a.recv {
+				if tn, ok := a.info.fieldTyp[y.Sel.Name]; ok {
+					for _, m := range a.types[tn].mutexes {
+						if m == x.Sel.Name {
+							return delta, qual(a.pkg, tn, m), mode, false
+						}
+					}
 				}
 			}
 		}
 	case *ast.Ident:
 		if x.Name == a.recv && a.info.embedded {
-			return kind
+			return delta, qual(a.pkg, a.info.name, ""), mode, true
 		}
 	}
-	return 0
+	return 0, "", 0, false
+}
+
+func (a *analyser) acquire(q string) {
+	for _, h := range a.heldSet {
+		if h != q {
+			a.edges = append(a.edges, edge{h, q})
+		}
+	}
+	a.heldSet = append(a.heldSet, q)
+}
+
+func (a *analyser) release(q string) {
+	for i := len(a.heldSet) - 1; i >= 0; i-- {
+		if a.heldSet[i] == q {
+			a.heldSet = append(a.heldSet[:i], a.heldSet[i+1:]...)
+			return
+		}
+	}
 }
 
 func terminates(list []ast.Stmt) bool {
@@ -313,27 +573,47 @@ func terminates(list []ast.Stmt) bool {
 	return false
 }
 
-// block walks statements in order and returns the lock state at its end.
-func (a *analyser) block(list []ast.Stmt, held bool) bool {
+func minMode(x, y int) int {
+	if x < y {
+		return x
+	}
+	return y
+}
+
+func (a *analyser) block(list []ast.Stmt, held int) int {
 	for _, s := range list {
 		held = a.stmt(s, held)
 	}
 	return held
 }
 
-func (a *analyser) stmt(s ast.Stmt, held bool) bool {
+func (a *analyser) stmt(s ast.Stmt, held int) int {
 	switch st := s.(type) {
 	case *ast.ExprStmt:
-		if k := a.lockCall(st.X); k != 0 {
-			return k > 0
+		if d, q, mode, own := a.lockCall(st.X); d != 0 {
+			if d > 0 {
+				a.acquire(q)
+				if own {
+					return mode
+				}
+				return held
+			}
+			a.release(q)
+			if own {
+				return mNone
+			}
+			return held
 		}
 		a.expr(st.X, held)
 	case *ast.DeferStmt:
-		if a.lockCall(st.Call) != 0 {
+		if d, _, _, _ := a.lockCall(st.Call); d != 0 {
 			return held // deferred unlock: held until the end
 		}
 		if fl, ok := st.Call.Fun.(*ast.FuncLit); ok {
-			a.block(fl.Body.List, false)
+			saved := a.heldSet
+			a.heldSet = nil
+			a.block(fl.Body.List, mNone)
+			a.heldSet = saved
 			for _, arg := range st.Call.Args {
 				a.expr(arg, held)
 			}
@@ -342,19 +622,25 @@ func (a *analyser) stmt(s ast.Stmt, held bool) bool {
 		}
 	case *ast.GoStmt:
 		if fl, ok := st.Call.Fun.(*ast.FuncLit); ok {
-			a.block(fl.Body.List, false)
+			saved := a.heldSet
+			a.heldSet = nil
+			a.block(fl.Body.List, mNone)
+			a.heldSet = saved
 			for _, arg := range st.Call.Args {
 				a.expr(arg, held)
 			}
 		} else {
-			a.expr(st.Call, held)
+			saved := a.heldSet
+			a.heldSet = nil
+			a.expr(st.Call, mNone)
+			a.heldSet = saved
 		}
 	case *ast.AssignStmt:
 		for _, e := range st.Rhs {
 			a.exprAssigned(e, held)
 		}
 		for _, e := range st.Lhs {
-			a.expr(e, held)
+			a.lhs(e, held)
 		}
 	case *ast.DeclStmt:
 		if gd, ok := st.Decl.(*ast.GenDecl); ok {
@@ -371,7 +657,7 @@ func (a *analyser) stmt(s ast.Stmt, held bool) bool {
 			a.exprAssigned(e, held)
 		}
 	case *ast.IncDecStmt:
-		a.expr(st.X, held)
+		a.lhs(st.X, held)
 	case *ast.SendStmt:
 		a.expr(st.Chan, held)
 		a.expr(st.Value, held)
@@ -385,21 +671,24 @@ func (a *analyser) stmt(s ast.Stmt, held bool) bool {
 		}
 		a.expr(st.Cond, held)
 		after := held
+		saved := append([]string(nil), a.heldSet...)
 		e1 := a.block(st.Body.List, held)
 		if !terminates(st.Body.List) {
-			after = after && e1
+			after = minMode(after, e1)
 		}
+		a.heldSet = append([]string(nil), saved...)
 		if st.Else != nil {
 			switch el := st.Else.(type) {
 			case *ast.BlockStmt:
 				e2 := a.block(el.List, held)
 				if !terminates(el.List) {
-					after = after && e2
+					after = minMode(after, e2)
 				}
 			default:
 				e2 := a.stmt(el, held)
-				after = after && e2
+				after = minMode(after, e2)
 			}
+			a.heldSet = append([]string(nil), saved...)
 		}
 		return after
 	case *ast.ForStmt:
@@ -412,16 +701,20 @@ func (a *analyser) stmt(s ast.Stmt, held bool) bool {
 		if st.Post != nil {
 			a.stmt(st.Post, held)
 		}
+		saved := append([]string(nil), a.heldSet...)
 		e := a.block(st.Body.List, held)
+		a.heldSet = saved
 		if !terminates(st.Body.List) {
-			return held && e
+			return minMode(held, e)
 		}
 		return held
 	case *ast.RangeStmt:
 		a.expr(st.X, held)
+		saved := append([]string(nil), a.heldSet...)
 		e := a.block(st.Body.List, held)
+		a.heldSet = saved
 		if !terminates(st.Body.List) {
-			return held && e
+			return minMode(held, e)
 		}
 		return held
 	case *ast.SwitchStmt:
@@ -444,8 +737,9 @@ func (a *analyser) stmt(s ast.Stmt, held bool) bool {
 	return held
 }
 
-func (a *analyser) clauses(list []ast.Stmt, held bool) bool {
+func (a *analyser) clauses(list []ast.Stmt, held int) int {
 	after := held
+	saved := append([]string(nil), a.heldSet...)
 	for _, c := range list {
 		var body []ast.Stmt
 		switch cc := c.(type) {
@@ -462,51 +756,175 @@ func (a *analyser) clauses(list []ast.Stmt, held bool) bool {
 		}
 		e := a.block(body, held)
 		if !terminates(body) {
-			after = after && e
+			after = minMode(after, e)
 		}
+		a.heldSet = append([]string(nil), saved...)
 	}
 	return after
 }
 
-// exprAssigned: a function literal that is assigned or returned runs later, with nothing held.
-func (a *analyser) exprAssigned(e ast.Expr, held bool) {
+func (a *analyser) exprAssigned(e ast.Expr, held int) {
 	if fl, ok := e.(*ast.FuncLit); ok {
-		a.block(fl.Body.List, false)
+		saved := a.heldSet
+		a.heldSet = nil
+		a.block(fl.Body.List, mNone)
+		a.heldSet = saved
 		return
 	}
 	a.expr(e, held)
 }
 
-func (a *analyser) expr(e ast.Expr, held bool) {
+// sharedField: is e the selector r.f or r.f.g of a shared field?  Returns its name.
+func (a *analyser) sharedField(e ast.Expr) (string, token.Pos, bool) {
+	se, ok := e.(*ast.SelectorExpr)
+	if !ok || a.recv == "" {
+		return "", 0, false
+	}
+	if id, ok := se.X.(*ast.Ident); ok && id.Name == a.recv {
+		for _, f := range a.info.shared {
+			if f == se.Sel.Name {
+				return f, se.Pos(), true
+			}
+		}
+		return "", 0, false
+	}
+	if in, ok := se.X.(*ast.SelectorExpr); ok {
+		if id, ok := in.X.(*ast.Ident); ok && id.Name == a.recv {
+			for _, g := range a.info.nested[in.Sel.Name] {
+				if g == se.Sel.Name {
+					return in.Sel.Name + "." + g, se.Pos(), true
+				}
+			}
+		}
+	}
+	return "", 0, false
+}
+
+func (a *analyser) record(f string, pos token.Pos, write bool, held int) {
+	how := "none"
+	switch held {
+	case mExcl:
+		how = "lock"
+	case mRead:
+		how = "rlock"
+	}
+	a.sites = append(a.sites, site{typ: a.info.pkg + "." + a.info.name, field: f, fn: a.fn,
+		line: a.fset.Position(pos).Line, write: write, mode: held, how: how})
+}
+
+// lhs: an assignment target.  m[k] = v / m[k]++ with m shared, or the shared field itself, is a write.
+func (a *analyser) lhs(e ast.Expr, held int) {
+	switch x := e.(type) {
+	case *ast.IndexExpr:
+		if f, pos, ok := a.sharedField(x.X); ok {
+			a.record(f, pos, true, held)
+			a.expr(x.Index, held)
+			return
+		}
+	case *ast.SelectorExpr:
+		if f, pos, ok := a.sharedField(x); ok {
+			a.record(f, pos, true, held)
+			return
+		}
+	}
+	a.expr(e, held)
+}
+
+func (a *analyser) expr(e ast.Expr, held int) {
 	if e == nil {
 		return
 	}
 	ast.Inspect(e, func(n ast.Node) bool {
 		switch x := n.(type) {
 		case *ast.FuncLit:
-			// reached only as call argument or in-place call: runs with the current state
 			a.block(x.Body.List, held)
 			return false
 		case *ast.CallExpr:
+			if id, ok := x.Fun.(*ast.Ident); ok && id.Name == "delete" && len(x.Args) == 2 {
+				if f, pos, ok := a.sharedField(x.Args[0]); ok {
+					a.record(f, pos, true, held)
+					a.expr(x.Args[1], held)
+					return false
+				}
+			}
 			if se, ok := x.Fun.(*ast.SelectorExpr); ok {
 				if id, ok := se.X.(*ast.Ident); ok && id.Name == a.recv && a.recv != "" {
 					a.calls[se.Sel.Name] = append(a.calls[se.Sel.Name], held)
 				}
-			}
-		case *ast.SelectorExpr:
-			if id, ok := x.X.(*ast.Ident); ok && id.Name == a.recv && a.recv != "" {
-				for _, f := range a.info.shared {
-					if f == x.Sel.Name {
-						how := "none"
-						if held {
-							how = "lock"
+				// lock-order edges through a callee that locks its receiver's mutex
+				if len(a.heldSet) > 0 {
+					rt := a.resolve(se.X)
+					for _, mi := range a.methods[se.Sel.Name] {
+						if mi.typ == a.info.name || a.isPackage(se.X) {
+							continue
 						}
-						a.sites = append(a.sites, site{typ: a.info.pkg + "." + a.info.name, field: f, fn: a.fn,
-							line: a.fset.Position(x.Pos()).Line, held: held, how: how})
+						if rt == "" || (rt != "?" && rt != mi.typ) || (rt == "?" && !a.reachable(mi.typ)) {
+							continue
+						}
+						for _, m := range mi.locks {
+							q := qual(a.pkg, mi.typ, m)
+							for _, h := range a.heldSet {
+								if h != q {
+									a.edges = append(a.edges, edge{h, q})
+								}
+							}
+						}
 					}
 				}
+			}
+		case *ast.SelectorExpr:
+			if f, pos, ok := a.sharedField(x); ok {
+				a.record(f, pos, false, held)
+				return false
 			}
 		}
 		return true
 	})
+}
+
+// resolve: the package-local struct type of a receiver expression built from the method's receiver and
+// field selections; "" when it is a field of foreign / non-struct type, "?" when unknown (a local variable).
+func (a *analyser) resolve(e ast.Expr) string {
+	switch x := e.(type) {
+	case *ast.Ident:
+		if x.Name == a.recv && a.recv != "" {
+			return a.info.name
+		}
+		return "?"
+	case *ast.SelectorExpr:
+		t := a.resolve(x.X)
+		if t == "?" || t == "" {
+			return t
+		}
+		if ti, ok := a.types[t]; ok {
+			return ti.fieldTyp[x.Sel.Name] // "" when the field is not of a package-local struct type
+		}
+		return ""
+	case *ast.IndexExpr:
+		return a.resolve(x.X)
+	case *ast.ParenExpr:
+		return a.resolve(x.X)
+	}
+	return "?"
+}
+
+// isPackage: a call pkg.F(...) of an imported package, not a method call
+func (a *analyser) isPackage(e ast.Expr) bool {
+	id, ok := e.(*ast.Ident)
+	return ok && a.imports[id.Name]
+}
+
+func (a *analyser) isOwnReceiver(e ast.Expr) bool {
+	id, ok := e.(*ast.Ident)
+	return ok && id.Name == a.recv
+}
+
+// reachable: is type tn referred to by a field of the current owner type?
+func (a *analyser) reachable(tn string) bool {
+	for _, t := range a.info.fieldTyp {
+		if t == tn {
+			return true
+		}
+	}
+	return false
 }
